@@ -49,7 +49,8 @@ func rfc(t time.Time) string {
 }
 
 // helperMain runs exactly one routine of the real code in this process.
-//   id <dir> | keypair <dir> | sleep-save <dir> <sleep|wake|poll|stop|seq-stop> | sleep-load <dir>
+//
+//	id <dir> | keypair <dir> | sleep-save <dir> <sleep|wake|poll|stop|seq-stop> | sleep-load <dir>
 func helperMain(args []string) {
 	runtime.LockOSThread() // every file system call of the routine is issued by this thread
 	out := helperOut{Routine: args[0]}
